@@ -5,3 +5,4 @@ import AJ.Props.C09Doc
 import AJ.Props.SlotCor2
 import AJ.Props.C09Gen
 import AJ.Props.DocGen
+import AJ.Props.C09Value
